@@ -32,6 +32,7 @@ let () =
             | "UTF-8" -> EncUtf8 | "UTF-16" -> EncUtf16 | "ISO-8859-1" -> EncLatin1 | "US-ASCII" -> EncAscii
             | _ -> failwith "encoding" in
           let v11 = (ver = "1.1") in
+          let rest = (match rest with "-L" :: r -> r | r -> r) in
           (match serialize k v11 (ascii ver) (ascii enc) (events rest) with
            | Ok l -> Printf.printf "%s ok %s\n" id (token_of_u16 l)
            | Oob -> Printf.printf "%s oob\n" id
